@@ -370,7 +370,7 @@ where
             return Ok(false);
         }) - 1;
 
-        self.validate()?;
+        self.validate(false)?;
         Ok(true)
     }
 
@@ -419,7 +419,7 @@ where
         if pos == RecordPos::Qual {
             // no line ending at end of last record
             self.buf_pos.pos.1 = self.get_buf().len();
-            self.validate()?;
+            self.validate(true)?;
             return Ok(true);
         }
 
@@ -468,7 +468,7 @@ where
 
         self.incomplete_pos = None;
 
-        self.validate()?;
+        self.validate(false)?;
         Ok(None)
     }
 
@@ -501,8 +501,9 @@ where
     }
 
     // should only be called on a complete BufferPosition
+    // `unterminated`: the last line of the record ends with the input, not with a line terminator
     #[inline(always)] // has performance impact and would not be inlined otherwise
-    fn validate(&mut self) -> Result<(), Error> {
+    fn validate(&mut self, unterminated: bool) -> Result<(), Error> {
         let start_byte = self.get_buf()[self.buf_pos.pos.0];
         if start_byte != b'@' {
             self.state = State::Finished;
@@ -523,10 +524,11 @@ where
 
         let qual_len = self.buf_pos.pos.1 - self.buf_pos.qual + 1;
         let seq_len = self.buf_pos.sep - self.buf_pos.seq;
-        if seq_len != qual_len {
-            // The line extents include the terminators. They also differ if only the
-            // terminators differ (CRLF input whose last line has no terminator), therefore
-            // the lengths without terminators decide.
+        if seq_len != qual_len || unterminated {
+            // The line extents include the terminators, so they are only conclusive if both
+            // lines have the same terminator. With an unterminated last line they can differ
+            // for equal lengths (CRLF input) and agree for different ones, therefore the
+            // lengths without terminators decide.
             let seq = self.buf_pos.seq(self.get_buf()).len();
             let qual = self.buf_pos.qual(self.get_buf()).len();
             if seq != qual {
